@@ -175,7 +175,9 @@ pub fn check(rec: &RunRecord, ops: &[&Op], reg: &Reg, which: &Which, cells: &mut
                 };
                 // who is this document for?
                 let explicit = if is_top {
-                    top_intent.and_then(|it| e.spec.handler(&it.hid).map(|h| (h, it.args.as_object().cloned().unwrap_or_default())))
+                    top_intent
+                        .filter(|it| it.cid.is_empty() || it.cid == d.cid())
+                        .and_then(|it| e.spec.handler(&it.hid).map(|h| (h, it.args.as_object().cloned().unwrap_or_default())))
                 } else {
                     None
                 };
